@@ -5,7 +5,7 @@
     the model assumes "every write at or after the fault fails"; the rest is enumerated on the
     real binary by the harness. *)
 From Coq Require Import List ZArith NArith Bool Lia.
-From AG Require Import Str F64 Value Json Expr Ops Pipeline Stream Stream_proofs Protocol_proofs.
+From AG Require Import Str F64 Value Json Expr Ops Pipeline Stream Stream_proofs Protocol_proofs Fault_proofs.
 Import ListNotations.
 Open Scope nat_scope.
 
@@ -40,6 +40,22 @@ Theorem C17_reader_stops : forall s l rest ops' r n,
   exists s', reader_step s = Some s' /\ y_phase s' = PDrainOp /\ y_chan s' = y_chan s /\ y_out s' = y_out s.
 Proof. exact reader_stops_on_failed_send. Qed.
 Print Assumptions C17_reader_stops.
+
+(** ... and at the first line it reads after the failure, WHATEVER that line is - rejected by the filter, dropped by an
+    operator, or good for a row: in any continuation of any reachable failed state at most one more line is taken
+    from the input (endless input included: the reader never waits for a row that would make a send fail) *)
+Theorem C17_reader_stops_on_any_line : forall s l rest,
+  y_rx s = false -> y_phase s = PRead -> y_lines s = l :: rest ->
+  exists s', reader_step s = Some s' /\ y_phase s' = PDrainOp /\ y_lines s' = rest /\
+             y_ops s' = y_ops s /\ y_chan s' = y_chan s /\ y_out s' = y_out s /\ y_errs s' = y_errs s.
+Proof. exact reader_stops_on_any_line. Qed.
+Print Assumptions C17_reader_stops_on_any_line.
+Theorem C17_at_most_one_line_after_failure : forall f ops lines budget sched1 sched2,
+  let s := run_schedule sched1 (init f ops lines budget) in
+  y_rx s = false ->
+  length (y_lines s) <= length (y_lines (run_schedule sched2 s)) + 1.
+Proof. exact at_most_one_line_after_failure. Qed.
+Print Assumptions C17_at_most_one_line_after_failure.
 
 (** and the whole system can still always move until it has terminated (no hang after a fault) *)
 Theorem C17_no_deadlock_with_fault : forall f ops lines k sched,
